@@ -493,12 +493,33 @@ impl<'tcx> Cx<'tcx> {
                     for (v, bb) in targets.iter() {
                         ts.push(format!("[{},{}]", esc(&v.to_string()), bb.as_usize()));
                     }
+                    // when the operand is the discriminant of an enum (read in this block), name the variants
+                    let mut vnames = vec![];
+                    if let Some(dp) = discr.place() {
+                        for st in &data.statements {
+                            if let StatementKind::Assign(box (p, Rvalue::Discriminant(src))) = &st.kind {
+                                if *p == dp {
+                                    let sty = src.ty(&body.local_decls, tcx).ty;
+                                    if let ty::Adt(def, _) = sty.kind() {
+                                        if def.is_enum() {
+                                            for (vi, v) in def.variants().iter_enumerated() {
+                                                let dv = def.discriminant_for_variant(tcx, vi).val;
+                                                vnames.push(format!("{}:{}", esc(&dv.to_string()), esc(v.name.as_str())));
+                                            }
+                                            vnames.push(format!("{}:{}", esc("__enum"), esc(&self.path(def.did()))));
+                                        }
+                                    }
+                                }
+                            }
+                        }
+                    }
                     obj(vec![
                         ("k", esc("switch")),
                         ("discr", self.operand(did, body, discr)),
                         ("discr_ty", esc(&self.ty(discr.ty(&body.local_decls, tcx)))),
                         ("targets", arr(ts)),
                         ("otherwise", targets.otherwise().as_usize().to_string()),
+                        ("variants", format!("{{{}}}", vnames.join(","))),
                     ])
                 }
                 TerminatorKind::UnwindResume => obj(vec![("k", esc("resume"))]),
